@@ -30,10 +30,83 @@ def _universe(tier):
     return uni
 
 
+BUILD_NAMES = ("A", "B", "C", "D")
+
+
+def build_ops():
+    ops = [("d", u, v) for u in BUILD_NAMES for v in BUILD_NAMES if u != v]
+    ops += [("b", u, v) for u, v in itt.combinations(BUILD_NAMES, 2)]
+    return ops
+
+
 def shards(tier):
     n = len(_universe(tier))
     size = 128 if tier == "quick" else 256
-    return [(i, min(i + size, n)) for i in range(0, n, size)]
+    out = [(i, min(i + size, n)) for i in range(0, n, size)]
+    # builder phase: the graph is grown edge by edge on ONE live object and queried after every step
+    out += [("build", i) for i in range(len(build_ops()))]
+    return out
+
+
+def explore_builder(res: Res, first, tier):
+    """Every sequence of 3 edge insertions (directed or bidirected, over 4 names) starting with ``first``; after every
+    insertion every (a, b, C) is asked on the live object and compared with the oracle on the reference triple."""
+    from y0.algorithm.conditional_independencies import are_d_separated
+    from y0.graph import NxMixedGraph
+
+    from ..graphs import is_acyclic
+
+    ops = build_ops()
+    depth = 3
+    for tail in itt.product(range(len(ops)), repeat=depth - 1):
+        seq = (first,) + tail
+        y = NxMixedGraph()
+        nodes, di, bi = [], [], []
+        hist = []
+        res.states += 1
+        for k in seq:
+            kind, u, v = ops[k]
+            hist.append([kind, u, v])
+            for n in (u, v):
+                if n not in nodes:
+                    nodes.append(n)
+            if kind == "d":
+                if (u, v) in di:
+                    break
+                di.append((u, v))
+                if not is_acyclic(nodes, di):
+                    break
+                y.add_directed_edge(V(u), V(v))
+            else:
+                if (u, v) in bi:
+                    break
+                bi.append((u, v))
+                y.add_undirected_edge(V(u), V(v))
+            g = G(tuple(nodes), tuple(di), tuple(bi))
+            bad = False
+            for a, b in itt.permutations(nodes, 2):
+                rest = [x for x in nodes if x not in (a, b)]
+                for c in subsets(rest):
+                    res.transitions += 1
+                    try:
+                        got = bool(are_d_separated(y, V(a), V(b), conditions=[V(x) for x in c]))
+                    except Exception as e:  # noqa
+                        got = f"{type(e).__name__}: {e}"
+                    want = msep(g, a, b, c)
+                    if got != want:
+                        res.violation(
+                            "verdict_after_mutation",
+                            {"builder_ops": list(hist), "a": a, "b": b, "C": list(c)},
+                            f"after growing one graph object by {hist}: are_d_separated says {got}, oracle says {want}",
+                        )
+                        res.outcomes["wrong_after_mutation"] += 1
+                        bad = True
+                        break
+                if bad:
+                    break
+            if bad:
+                break
+            res.outcomes["builder_step_ok"] += 1
 
 
 def describe(tier):
@@ -46,7 +119,9 @@ def describe(tier):
         + "canonical (hash seed 0) and reversed nodes+edges (other seeds"
         + ("" if tier == "thorough" else ", name-ordered sub-family O(4) only")
         + ") for n>=4; PYTHONHASHSEED in "
-        + str(HASH_SEEDS[tier]),
+        + str(HASH_SEEDS[tier])
+        + "; plus every sequence of 3 edge insertions (directed or bidirected, 4 names) on one live graph object with all "
+        "queries after every insertion",
         "rule": "state = (graph, insertion order, a, b, C); transition = one are_d_separated call compared with the "
         "path-definition oracle on the latent-expanded DAG",
         "assumptions": [
@@ -126,8 +201,12 @@ def check_graph(res: Res, g: G, order, rev, first):
 
 def work(shard, tier, seed):
     hs = int(os.environ.get("PYTHONHASHSEED", "0") or 0)
-    lo, hi = shard
     res = Res()
+    if shard[0] == "build":
+        if hs == 0:
+            explore_builder(res, shard[1], tier)
+        return res
+    lo, hi = shard
     for g in _universe(tier)[lo:hi]:
         ref = None
         for k, (order, rev) in enumerate(_orders(g, tier, hs)):
@@ -147,6 +226,12 @@ def work(shard, tier, seed):
 
 
 def replay(case, clause=None):
+    if "builder_ops" in case:
+        res = Res()
+        ops = build_ops()
+        idx = [ops.index(tuple(o)) for o in case["builder_ops"]]
+        explore_builder(res, idx[0], "quick")
+        return [v for v in res.violations if v["input"]["builder_ops"] == case["builder_ops"]][:1]
     g = G.from_json(case["graph"])
     res = Res()
     check_graph(res, g, tuple(case.get("order", g.nodes)), case.get("rev", False), True)
